@@ -211,6 +211,7 @@ package verifh
 //@   canary[C01] result0 == 0
 
 //@ func MessageTwoFields
+//@   tier thorough
 //@   requires b != nil && t1 < t2
 //@   modifies buffer.len at b
 //@   modifies buffer.obj at b
